@@ -14,7 +14,7 @@ from collections import deque
 from .interp import AbsRaise, Chooser, Interp, PathAbort
 from .values import Unsupported
 from .values import (
-    App, BoundMethod, ClassV, DictV, Ext, FuncV, LazyV, PartialV, Lin, ListOf, ListV, Obj, Sym, SymStr, UNRESOLVED, BuiltinV, Cond,
+    App, BoundMethod, ClassV, ConstObj, DictV, Ext, FuncV, LazyV, PartialV, Lin, ListOf, ListV, Obj, Sym, SymStr, UNRESOLVED, BuiltinV, Cond,
 )
 
 
@@ -37,7 +37,7 @@ def clone(v, memo=None):
     if memo is None:
         memo = {}
     t = type(v)
-    if v is None or t in (bool, int, str, bytes, Sym, Lin, App, SymStr, Cond, FuncV, BuiltinV, Ext):
+    if v is None or t in (bool, int, str, bytes, Sym, Lin, App, SymStr, Cond, FuncV, BuiltinV, Ext, ConstObj):
         return v
     i = id(v)
     if i in memo:
@@ -103,6 +103,8 @@ def normalize(root, label="w"):
     seen = set()
 
     def walk(v, path):
+        if isinstance(v, ConstObj):
+            return
         if isinstance(v, Obj):
             if id(v) in seen:
                 return
@@ -165,6 +167,8 @@ def numeric_slots(root, label="w"):
         return (isinstance(x, (int, Fraction)) and not isinstance(x, bool)) or isinstance(x, (Lin, App)) or (isinstance(x, Sym) and x.kind == "num")
 
     def walk(v, path):
+        if isinstance(v, ConstObj):
+            return
         if isinstance(v, Obj):
             if id(v) in seen:
                 return
@@ -223,6 +227,8 @@ def canon(root):
             return repr(v)
         if isinstance(v, LazyV):
             return ("lazy", v.name, "?" if v.cell[0] is UNRESOLVED else c(v.cell[0]))
+        if isinstance(v, ConstObj):
+            return ("const", v.cls.qualname, v.label)
         if isinstance(v, Obj):
             if id(v) in memo:
                 return ("ref", memo[id(v)])
